@@ -216,6 +216,70 @@ def adversarial_programs():
         yield ("adversarial/" + desc, build)
 
 
+def param_programs():
+    """instances whose parameters are partly or wholly unset (None), given as a param-class, as a dictionary (external
+    modules declared with paramtype=dict), by a PDK compile that fills a dictionary from a param-class (ASAP7), or as the
+    renamed dictionary of the pulse source"""
+    import hdl21 as h
+    from hdl21.prefix import n as nano
+
+    def dict_ext(vals, depth):
+        def b():
+            E = h.ExternalModule(name="DictP", port_list=[h.Inout(name="a"), h.Inout(name="b")], desc="", domain="c06p", paramtype=dict)
+            m = h.Module(name="DictTop")
+            m.x, m.y = h.Signal(), h.Signal()
+            m.i = E(dict(vals))(a=m.x, b=m.y)
+            m.j = E(dict(vals))(a=m.y, b=m.x)
+            for k in range(depth):
+                p = h.Module(name=f"DictWrap{k}")
+                p.inner = m()
+                m = p
+            return m
+        return b
+    sets = {"one-unset": dict(w=1, l=None, model="nch"), "all-unset": dict(w=None, l=None), "none-unset": dict(w=1 * nano, l="2*k", nf=3),
+            "first-unset": dict(a=None, b=2.5, c="x"), "empty": {}}
+    for name, vals in sets.items():
+        for depth in (0, 1):
+            yield (f"params/dict/{name}/depth{depth}", dict_ext(vals, depth))
+
+    def asap7(kind):
+        def b():
+            import asap7_hdl21 as a7
+            m = h.Module(name="A7Inv")
+            m.i, m.o, m.vdd, m.vss = h.Input(), h.Output(), h.Port(), h.Port()
+            if kind == "defaults":
+                m.n = h.Nmos()(d=m.o, g=m.i, s=m.vss, b=m.vss)
+                m.p = h.Pmos()(d=m.o, g=m.i, s=m.vdd, b=m.vdd)
+            else:
+                m.n = h.Nmos(npar=2)(d=m.o, g=m.i, s=m.vss, b=m.vss)
+                m.p = h.Pmos(vth=h.MosVth.LOW)(d=m.o, g=m.i, s=m.vdd, b=m.vdd)
+            h.pdk.compile(m, a7)
+            return m
+        return b
+    try:
+        import asap7_hdl21  # noqa: F401
+        for kind in ("defaults", "some-set"):
+            yield (f"params/asap7-compiled/{kind}", asap7(kind))
+    except ImportError:
+        pass
+
+    def classes(which):
+        def b():
+            m = h.Module(name="PcTop")
+            m.a, m.b = h.Signal(), h.Signal()
+            if which == "mos-defaults":
+                m.x = h.Nmos()(d=m.a, g=m.b, s=m.a, b=m.b)
+            elif which == "res":
+                m.x = h.PhysicalResistor(model="rp")(p=m.a, n=m.b)
+            else:
+                m.x = h.Vdc(dc=1)(p=m.a, n=m.b)
+                m.y = h.Vpulse(v1=0, v2=1, delay=0, rise=1 * nano, fall=1 * nano, width=2 * nano, period=5 * nano)(p=m.b, n=m.a)
+            return m
+        return b
+    for which in ("mos-defaults", "res", "sources"):
+        yield (f"params/paramclass/{which}", classes(which))
+
+
 def check_pkg(case):
     import hdl21 as h
     from rtc.wf import wf_package
@@ -244,11 +308,11 @@ def run(ctx):
     ctx.verify(c_export.names_engine(), c_export.VERIFY_NAMES)
     from props.c01 import concat_designs
     cases = itertools.chain(design_family(ctx.tier, ctx.seed), concat_designs(), extra_programs(), compiled_programs(), edited_programs(), edited_after_export_programs(), faulted_programs(),
-                            adversarial_programs())
+                            adversarial_programs(), param_programs())
     ctx.run_bounded("wf_package(to_proto(design))", cases, check_pkg,
                     rule=RULE + "; every concatenation of two or three pieces of one bus (C01's family, 285 designs); sample-PDK-compiled and walked designs holding two- and three-terminal passives of equal parameters (24); plus Series/MosStack/Wrapper over small parameter ranges; modules whose names were "
                          "re-used for another kind (16 pairs); modules edited after a first export (7 edits x 2 depths); the single-fault designs of C02 (a package returned for "
-                         "one of them must still be well-formed); the adversarially named designs of C05",
+                         "one of them must still be well-formed); the adversarially named designs of C05; instances with unset (None) parameters in param-classes, parameter dictionaries, ASAP7-compiled devices (15)",
                     bound="depth<=3, widths<=4 (8 thorough)", key_of=lambda c: c[0],
                     nontrivial=lambda c: nontrivial(c[0]))
     return INFO
@@ -259,7 +323,7 @@ def replay(payload):
     if want:
         for tier in ("quick", "thorough"):
             for desc, b in itertools.chain(design_family(tier, 0), extra_programs(), edited_programs(), edited_after_export_programs(), faulted_programs(),
-                            adversarial_programs()):
+                            adversarial_programs(), param_programs()):
                 if desc == want:
                     r = check_pkg((desc, b))
                     print("replay:", r)
